@@ -2,7 +2,7 @@
 (***************************************************************************)
 (* contextmanager(async generator function) (C13).  A *program* is an      *)
 (* async generator assembled from three parts                              *)
-(*     pre  : raise | noyield | yield                                       *)
+(*     pre  : raise | raisert | noyield | yield                             *)
 (*     h    : what the generator does with an exception thrown in at the   *)
 (*            yield (10 handlers)                                          *)
 (*     post : what follows the yield (after a normal resume, or after a    *)
@@ -21,7 +21,7 @@ EXTENDS Naturals, Sequences, TLC, Json, CSV
 
 CONSTANTS OutFile
 
-Pres == {"raise", "noyield", "yield"}
+Pres == {"raise", "raisert", "noyield", "yield"}
 Handlers == {"none", "finally", "swallow", "reraise", "raisenew", "raisenewfromnone", "raisenewfrom",
              "raisesametype", "return", "yieldagain", "raisesai", "raisertfrom", "raisert"}
 Posts == {"stop", "yield", "raise", "raisesai"}
@@ -46,10 +46,12 @@ IsStop(x) == x \in {"StopIteration", "StopAsyncIteration"}
 \* __aenter__: run the generator to its first yield  [contextlib.py:120-124]
 Enter ==
   /\ phase = "enter"
-  /\ entered' = CASE prog.pre = "raise" -> "raise" [] prog.pre = "noyield" -> "rt-noyield" [] OTHER -> "value"
+  \* ("raisert": the generator raises a RuntimeError of its own while handling a StopAsyncIteration -- its own
+  \*  exception, whatever its __context__ is, not a generator that "did not yield")
+  /\ entered' = CASE prog.pre \in {"raise", "raisert"} -> "raise" [] prog.pre = "noyield" -> "rt-noyield" [] OTHER -> "value"
   /\ IF prog.pre = "yield" THEN phase' = "block" /\ result' = result
      ELSE /\ phase' = "done"
-          /\ result' = IF prog.pre = "raise" THEN "new:PreError" ELSE "rt-noyield"
+          /\ result' = CASE prog.pre = "raise" -> "new:PreError" [] prog.pre = "raisert" -> "new:PreRuntimeError" [] OTHER -> "rt-noyield"
   /\ UNCHANGED <<prog, o, lib, gen, nresume>>
 
 Block == /\ phase = "block" /\ phase' = "exit" /\ UNCHANGED <<prog, o, lib, entered, gen, nresume, result>>
